@@ -8,6 +8,8 @@
    them, no law is needed. *)
 From Coq Require Import String Ascii List NArith Bool.
 From Tink Require Import Bytes UntrustedConsts Untrusted UntrustedSpec UntrustedProofs.
+From Coq Require Import ZArith.
+From Tink Require Import UntrustedSites UntrustedSitesProofs UntrustedPanicSites.
 Import ListNotations.
 Open Scope list_scope.
 Open Scope N_scope.
@@ -277,3 +279,92 @@ Proof.
   - split; [vm_compute; reflexivity|]. split; [|split; vm_compute; reflexivity].
     apply (usable_strength std0 _ pt_tink 5); vm_compute; reflexivity.
 Qed.
+
+
+(* ======================================================================== *)
+(* STRETCH ROUND: the panic sites beyond the checked slices of the model.   *)
+(* model/UntrustedPanicSites.v is the hand-made table of EVERY expression   *)
+(* on the untrusted-keyset path that Go or its standard library can make    *)
+(* panic (67 sites: file, function, expression, kind, guard, coverage);     *)
+(* model/UntrustedSites.v transcribes, with Go's machine integers, the      *)
+(* sites the model did not carry as a checked operation of its own.         *)
+(* ======================================================================== *)
+
+(* the table: every site has a guard; one site (the panic(err) of
+   Handle.KeysetInfo) is decided by the harness alone, six lie inside the
+   standard library (the trusted behaviour is named in the table) *)
+Theorem C14_every_listed_panic_site_is_guarded :
+  forallb guarded panic_sites = true /\
+  length panic_sites = 67%nat /\
+  length (filter is_harness_only panic_sites) = 1%nat /\
+  length (filter is_stdlib panic_sites) = 6%nat.
+Proof. split; [exact every_site_has_a_guard|exact coverage_counts]. Qed.
+Print Assumptions C14_every_listed_panic_site_is_guarded.
+
+(* internal/ec BigIntBytesToFixedSizeBuffer AS WRITTEN (make with a computed
+   size, the index loop over the leading bytes, the final slice): never panics
+   for any byte string and any non-negative size, and is the function
+   fixed_size of the model. *)
+Theorem C14_bigint_buffer_as_written_never_panics :
+  (forall b size, (0 <= size)%Z -> fixed_size_go b size <> Panic) /\
+  (forall b n, fixed_size_go b (Z.of_nat n) = fixed_size b n).
+Proof. split; [exact fixed_size_go_np|exact fixed_size_go_is_model]. Qed.
+Print Assumptions C14_bigint_buffer_as_written_never_panics.
+
+(* encodePoint AS WRITTEN (make, encodedPoint[0], the two slices with computed
+   start positions) after the guard chain of newPublicKeyFromProto: both
+   coordinates went through BigIntBytesToFixedSizeBuffer(., c). *)
+Theorem C14_encode_point_guard_chain :
+  forall bx by_ (c : nat) x y,
+    fixed_size_go bx (Z.of_nat c) = Ok x -> fixed_size_go by_ (Z.of_nat c) = Ok y ->
+    encode_point_go x y (Z.of_nat c) = Ok (4 :: x ++ y).
+Proof. exact encode_point_after_fixed_size_np. Qed.
+Print Assumptions C14_encode_point_guard_chain.
+
+(* the exact-length tests in front of the SLH-DSA decoders, the point slices
+   of the serializers (pt[1:], xy[:c], xy[c:]) and of the ECDSA signer /
+   verifier constructors (xy[:len/2], xy[len/2:]), Handle.Entry(i) *)
+Theorem C14_length_guarded_slices_never_panic :
+  (forall n b, (0 <= n)%Z -> slh_decode_pk_go n b <> Panic /\ slh_decode_sk_go n b <> Panic) /\
+  (forall pt c, (0 <= c)%Z -> zlen pt = (1 + 2 * c)%Z -> point_coords_go pt c <> Panic) /\
+  (forall pt, (1 <= zlen pt)%Z -> point_halves_go pt <> Panic) /\
+  (forall (A : Type) (entries : list A) i, entry_go entries i <> Panic).
+Proof.
+  split; [exact slh_decode_go_np|]. split; [exact point_coords_go_np|].
+  split; [exact point_halves_go_np|]. intros A entries i. apply entry_go_np.
+Qed.
+Print Assumptions C14_length_guarded_slices_never_panic.
+
+(* integer conversions: int32(uint32 segment size) and int(int32 salt length)
+   wrap; the comparisons that follow reject every wrapped value, and they are
+   the model's int32_at_least / int32_positive.  The streaming AEAD minimum
+   int32(derived + 7 + 1 + tag + 1) cannot wrap because derived and tag were
+   bounded first. *)
+Theorem C14_wrapping_conversions_are_rejected :
+  (forall v m, (0 <= v <= u32_max)%Z -> (0 < m)%Z ->
+     (m <=? int32_of_u32 v)%Z = int32_at_least (Z.to_N v) (Z.to_N m)) /\
+  (forall v, (0 <= v <= u32_max)%Z -> (0 <? int_of_i32field v)%Z = int32_positive (Z.to_N v)) /\
+  (forall derived tag seg max_tag,
+     (0 <= seg <= u32_max)%Z -> (0 <= tag <= u32_max)%Z -> (max_tag <= 64)%Z ->
+     seg_check_ctr_go derived tag seg max_tag = true ->
+     (seg < 2147483648 /\ int32_of_u32 seg = seg /\ derived + 7 + 1 + tag + 1 <= seg /\ 10 <= tag <= max_tag)%Z) /\
+  (forall derived seg, (0 <= seg <= u32_max)%Z -> seg_check_gcm_go derived seg = true ->
+     (seg < 2147483648 /\ derived + 24 + 1 <= seg)%Z).
+Proof.
+  split; [exact int32_at_least_is_go|]. split; [exact int32_positive_is_go|].
+  split; [exact seg_check_ctr_go_sound|exact seg_check_gcm_go_sound].
+Qed.
+Print Assumptions C14_wrapping_conversions_are_rejected.
+
+(* Non-vacuity, and what the guards are for: the as-written bodies compute on
+   concrete inputs; without its guard each of them panics. *)
+Example C14_nonvacuous_sites :
+  fixed_size_go [0; 0; 7; 9] 2 = Ok [7; 9] /\ fixed_size_go [7] 3 = Ok [0; 0; 7] /\ fixed_size_go [1; 7; 9] 2 = Err /\
+  fixed_size_go [0] (-1) = Panic /\
+  encode_point_go [1; 2] [3; 4] 2 = Ok [4; 1; 2; 3; 4] /\ encode_point_go [1; 2; 3; 4] [5] 2 = Panic /\
+  point_halves_go [4; 1; 2; 3; 4] = Ok ([1; 2], [3; 4]) /\ point_halves_go [] = Panic /\
+  slh_decode_pk_go 2 [1; 2; 3; 4] = Ok ([1; 2], [3; 4]) /\ slh_decode_pk_go 2 [1; 2; 3] = Err /\
+  seg_check_ctr_go 16 16 4096 32 = true /\ seg_check_ctr_go 16 16 2147483648 32 = false /\
+  seg_check_ctr_go 16 16 4294967295 32 = false /\
+  (int32_wrap (16 + 7 + 1 + 4294967271 + 1) <=? int32_of_u32 16)%Z = true.
+Proof. repeat split; vm_compute; reflexivity. Qed.
